@@ -858,6 +858,14 @@ func markLocationCreated(ctx *Context, loc *Location) error {
 	if marked {
 		return nil
 	}
+	// 'SetProp' asks nobody.  We are about to write into a location
+	// that can be protected (or switched off) before it is "created".
+	if !loc.Enabled(ctx) {
+		return fmt.Errorf("Location is disabled.")
+	}
+	if err = loc.CheckWrite(ctx); err != nil {
+		return err
+	}
 	err = loc.SetProp(ctx, "", createdMarker, NowString())
 	Log(DEBUG, ctx, "System.markLocationCreated", "name", loc.Name, "err", err)
 	return err
